@@ -350,6 +350,29 @@ func (f *flower) flowCell(cell *ssa.Alloc, acc litSet, depth int) (bool, litSet)
 				merge(f.flow(x, acc.union(f.blockLits(x)), depth+1))
 			case *ssa.Slice:
 				merge(f.flow(x, acc.union(f.blockLits(x)), depth+1))
+			case *ssa.Return:
+				// `v := build(); return &v`: the address of the variable holding the value is handed on
+				for i, res := range x.Results {
+					if res == al {
+						merge(f.flowReturn(x.Parent(), i, acc.union(f.blockLits(x)), depth+1))
+					}
+				}
+			case ssa.CallInstruction:
+				// `use(&v)`: the callee reads the value through the pointer
+				c := x.Common()
+				for ai, a := range c.Args {
+					if a != al {
+						continue
+					}
+					if f.isTerminal(x, ai) {
+						f.terminals = append(f.terminals, x)
+						merge(true, acc.union(f.blockLits(x)))
+						continue
+					}
+					if callee := f.P.Callee(c); callee != nil && f.P.IsProductFunc(callee) && len(callee.Blocks) > 0 && ai < len(callee.Params) {
+						merge(f.flow(callee.Params[ai], acc.union(f.blockLits(x)), depth+1))
+					}
+				}
 			}
 		}
 	}
